@@ -181,7 +181,7 @@ fn c04_static_reverse_loop_bit_exact() { kv_play_body(true, true, 6, 0); }
 #[kani::unwind(9)]
 fn c04_static_reverse_loop_bit_exact_sliced() { kv_play_body(true, true, 6, 1); }
 
-// @h prop=C04 tier=quick kind=main timeout=280
+// @h prop=C04 tier=quick kind=main timeout=600
 // @bounds reverse flag x sign of the playback rate (+1 / -1), 3-frame sound from its first/last frame, 3 callbacks: direction = reverse XOR negative rate
 // @funcs StaticSound::is_playing_backwards, StaticSound::update_position, StaticSound::process
 // @catches reverse and a negative rate not cancelling (OR instead of XOR)
@@ -219,7 +219,7 @@ fn kv_same(a: &KvPos, b: &KvPos) -> bool {
 	a.pos == b.pos && a.playing == b.playing && a.frac.to_bits() == b.frac.to_bits() && a.heard == b.heard && a.window[0] == b.window[0] && a.window[1] == b.window[1] && a.window[2] == b.window[2] && a.window[3] == b.window[3]
 }
 
-// @h prop=C03 tier=quick kind=main timeout=280
+// @h prop=C03 tier=quick kind=main timeout=600
 // @bounds a StaticSound in ANY transport/resampler state (as c04_static_one_callback_from_any_state) whose state machine is Paused, WaitingToResume (delay pending) or Stopped; one process() call of one frame
 // @funcs StaticSound::process, PlaybackStateManager::update, StartTime::update
 // @catches a paused / waiting / stopped sound emitting signal or advancing its transport, sub-frame phase or resampler window
@@ -247,7 +247,7 @@ fn c03_static_frozen_process_is_silent_and_still() {
 	std::mem::forget(sound);
 }
 
-// @h prop=C03 tier=quick kind=main timeout=280
+// @h prop=C03 tier=quick kind=main timeout=600
 // @bounds a sound waiting for its own start time (StartTime::Delayed pending, state Playing) in any transport/resampler state: one process() call
 // @funcs StaticSound::process, StartTime::update
 // @catches a sound emitting audio or advancing before its start time
@@ -267,7 +267,7 @@ fn c03_static_before_start_time_is_silent_and_still() {
 	std::mem::forget(sound);
 }
 
-// @h prop=C03,C04 tier=quick kind=main timeout=280
+// @h prop=C03,C04 tier=quick kind=main timeout=600
 // @bounds seek_to_index(i), i <= 4 symbolic, on a sound in ANY transport/resampler state, in every one of the seven playback states
 // @funcs StaticSound::seek_to_index, StaticSound::push_frame_to_resampler, Transport::seek_to
 // @catches a seek issued while the sound is frozen pushing a frame into the resampler window (the reported position then creeps by one frame per seek); a seek while playing NOT refreshing the window
@@ -295,7 +295,7 @@ fn c03_static_seek_pushes_a_frame_only_while_advancing() {
 	std::mem::forget(sound);
 }
 
-// @h prop=C03,C07 tier=quick kind=main timeout=280
+// @h prop=C03,C07 tier=quick kind=main timeout=600
 // @bounds pause / resume / resume_at / stop applied (as read_commands applies them) to a Stopped sound in any transport/resampler state, then one process() call
 // @funcs StaticSound::{pause,resume,stop,process,update_shared_playback_state}, PlaybackStateManager::{pause,resume,stop,update}
 // @catches a command resurrecting a stopped sound
@@ -326,7 +326,7 @@ fn c03_static_stopped_ignores_state_commands() {
 // ---------------------------------------------------------------------------------------------
 // C07: commands are applied exactly once
 // ---------------------------------------------------------------------------------------------
-// @h prop=C07,C04 tier=quick kind=main timeout=280
+// @h prop=C07,C04 tier=quick kind=main timeout=600
 // @bounds playing 4-frame looping sound; seek_by(a) / seek_to(p) with symbolic whole-second amounts (|a| <= 3, p <= 3) written once (or twice: last wins), then on_start_processing TWICE
 // @funcs StaticSound::{on_start_processing,read_commands,seek_by,seek_to,seek_to_index}, Transport::seek_to, CommandWriter::write, CommandReader::read
 // @catches a command applied on every callback (reader not consumed); first of a burst winning; seek landing off target
@@ -363,7 +363,7 @@ fn c07_static_seek_applied_exactly_once() {
 	std::mem::forget(sound); std::mem::forget(w);
 }
 
-// @h prop=C07 tier=quick kind=main timeout=280
+// @h prop=C07 tier=quick kind=main timeout=600
 // @bounds set_volume / set_panning / set_playback_rate commands (fixed targets, 250 ms tween) written before the first callback: each alone, or volume and panning together (symbolic choice); two drains
 // @funcs StaticSound::read_commands, Parameter::read_command, Parameter::set
 // @catches a setter lost when written before the first callback; different kinds interfering; tween restarted by a second drain
@@ -450,7 +450,7 @@ fn kv_ref_update(position: usize, playing: bool, lp: Option<(usize, usize)>, tue
 	(pushed, position, p2, pl2, tue2)
 }
 
-// @h prop=C04,C01,C11 tier=quick kind=main timeout=280
+// @h prop=C04,C01,C11 tier=quick kind=main timeout=600
 // @bounds ONE callback of one frame at rate +1 (device rate == sound rate) from ANY state: any slice of the 4-frame buffer, any transport position/playing flag/loop region satisfying the transport invariant, forwards or reverse, any resampler window (small-integer frames, arbitrary indices), any drain counter
 // @funcs StaticSound::process, StaticSound::update_position, StaticSound::push_frame_to_resampler, StaticSound::is_playing_backwards, Resampler::{get,push_frame,empty,current_frame_index}, Transport::{increment_position,decrement_position}, frame_at_index, num_frames, interpolate_frame, Frame::panned, Decibels::as_amplitude
 // @catches output not the frame in window slot 1 (added latency / wrong slot); pushed frame read relative to the buffer instead of the slice or outside it; position stepped twice or not at all; Stopped reported early/late; drain counter off by one
@@ -519,7 +519,7 @@ fn kv_fractional_body(rate: f64, frac: f64) {
 	std::mem::forget(sound);
 }
 
-// @h prop=C04,C11 tier=quick kind=main timeout=280
+// @h prop=C04,C11 tier=quick kind=main timeout=600
 // @bounds one callback from ANY state (as above) at playback rate 1/2 with sub-frame phase 0 or 1/2
 // @funcs StaticSound::process, StaticSound::update_position, Resampler::get
 // @assume interpolate_frame replaced by a recording stand-in (its end points are checked by c04_interpolate_frame_endpoints)
@@ -529,7 +529,7 @@ fn kv_fractional_body(rate: f64, frac: f64) {
 #[kani::stub(crate::frame::interpolate_frame, kv_interpolate_frame_spy)]
 fn c04_static_half_rate_step() { let h: bool = kani::any(); kv_fractional_body(0.5, if h { 0.5 } else { 0.0 }); }
 
-// @h prop=C04,C11 tier=quick kind=main timeout=280
+// @h prop=C04,C11 tier=quick kind=main timeout=600
 // @bounds one callback from ANY state at playback rate 2 (two source frames per output frame) and at rate -1 (direction flips), phase 0
 // @funcs StaticSound::process, StaticSound::update_position, StaticSound::is_playing_backwards
 // @assume interpolate_frame replaced by a recording stand-in
@@ -538,7 +538,7 @@ fn c04_static_half_rate_step() { let h: bool = kani::any(); kv_fractional_body(0
 #[kani::stub(crate::frame::interpolate_frame, kv_interpolate_frame_spy)]
 fn c04_static_double_and_negative_rate_step() { let d: bool = kani::any(); kv_fractional_body(if d { 2.0 } else { -1.0 }, 0.0); }
 
-// @h prop=C04,C01 tier=quick kind=main timeout=280
+// @h prop=C04,C01 tier=quick kind=main timeout=600
 // @bounds StaticSound::new for ANY slice of the 4-frame buffer, any start position < n, reverse on/off, any loop region inside the slice (or open-ended)
 // @funcs StaticSound::new, Transport::new, Resampler::new, StaticSound::update_position (x3)
 // @catches pre-fill of the wrong number of frames (latency), start position not slice-relative, reverse start from the unsliced length, loop end from the unsliced length, reported start position
@@ -585,7 +585,7 @@ fn c04_static_new_prefills_three_frames_from_start() {
 // ---------------------------------------------------------------------------------------------
 // C01 findings (expected to FAIL exactly as listed in KNOWN_FINDINGS.txt)
 // ---------------------------------------------------------------------------------------------
-// @h prop=C01 tier=quick kind=finding:F5 timeout=280
+// @h prop=C01 tier=quick kind=finding:F5 timeout=600
 // @bounds one callback of one frame at an absurd but finite playback rate (1e18) on a looping sound: the per-frame stepping loop `while fractional_position >= 1.0` must terminate within 8 iterations
 // @funcs StaticSound::process
 // @catches (finding F5) the audio callback not returning: 1e18 - 1.0 == 1e18 in f64, the loop never ends
@@ -602,7 +602,7 @@ fn c01_find_static_huge_rate_loop_unbounded() {
 }
 
 include!(concat!(env!("KV_HARNESS_DIR"), "/lib/libm.rs"));
-// @h prop=C01 tier=quick kind=finding:F6 timeout=280
+// @h prop=C01 tier=quick kind=finding:F6 timeout=600
 // @bounds a silent frame played at a finite but absurd volume (+1000 dB): the amplitude overflows to +inf and inf * 0 is NaN
 // @funcs StaticSound::process, Decibels::as_amplitude
 // @assume powf contract stub (10^50 may be +inf, as it is natively in f32)
@@ -644,7 +644,7 @@ fn kv_clone_sound(s: &StaticSound) -> StaticSound {
 	}
 }
 
-// @h prop=C11,C04 tier=quick kind=main timeout=400
+// @h prop=C11,C04 tier=quick kind=main timeout=900
 // @bounds a StaticSound in any PLAYING transport/resampler state at rate 1: two frames rendered by one process() call of 2 frames vs two calls of 1 frame: identical output and identical final state
 // @funcs StaticSound::process
 // @catches any dependence of the rendered audio or of the sound's state on where the chunk boundary falls (per-chunk rounding, state advanced per call instead of per frame, time_in_chunk misuse)
